@@ -93,7 +93,8 @@ PROPS['C14'] = {
     'level_note': 'CBOR size model (RFC 8949 byte-string header lengths) assumed for to_assertion(); base size uninterpreted; sizes < 2^31; Store::start_save_stream equal-size check not covered.',
     'technique': TECH_V,
     'parts': [V('verus:pad', 'pad'), V('verus:cose_pad', 'cose_pad'),
-              B('native:pad_cose_sig', 'sdk', [{'name': 'c14_pad_cose_sig_every_reserve', 'tier': 'quick'}], functions=[('sdk/src/crypto/cose/sign.rs', 'pad_cose_sig')],
+              B('native:pad_cose_sig', 'sdk', [{'name': 'c14_pad_cose_sig_every_reserve', 'tier': 'quick'}, {'name': 'c14_cbor_size_model_matches_serializer', 'tier': 'quick'}, {'name': 'c14_pad_to_size_around_header_boundaries', 'tier': 'quick'}],
+                functions=[('sdk/src/crypto/cose/sign.rs', 'pad_cose_sig'), ('sdk/src/assertions/data_hash.rs', 'pad_to_size')],
                 bounds='every reserve from the unpadded size to +70000 (empty unprotected header); to +1200 (thorough +70000) for a populated header')],
     'trusted_base': TB_VERUS + ['to_assertion() is Ok and |data| = base(hash) + hdr(|pad|) + |pad| + (pad2 ? 5 + hdr(|pad2|) + |pad2| : 0), hdr = CBOR byte-string header length',
                                 'coset: pushing (Text(label), Bytes(n zeros)) onto unprotected.rest grows the tagged serialization by 1 + |label| + hdr(n) + n (fewer than 20 entries); checked natively for every reserve up to +70000',
